@@ -1587,13 +1587,17 @@ fn run_suffix(prefix_pool: &[AffTree<2>], prefix_models: &[ModelTree], sc: &Scen
 
 /// One C11 scenario: seeded pool + fault-free prefix, a pruning suffix, then every single-fault
 /// plan (position x kind), optionally every pair of positions, plus seeded multi-fault plans.
-pub fn seeded_fault_scenario(run_seed: u64, thorough: bool) -> FaultScenarioResult {
-    seeded_fault_scenario_traced(run_seed, thorough, false)
+/// Number of work items a scenario is split into: item c executes the plans with index = c mod CHUNKS
+/// (every item rebuilds the scenario and its fault-free baseline; plans are generated identically).
+pub const CHUNKS: usize = 8;
+
+pub fn seeded_fault_scenario(run_seed: u64, thorough: bool, chunk: usize) -> FaultScenarioResult {
+    seeded_fault_scenario_traced(run_seed, thorough, chunk, false)
 }
 
-pub fn seeded_fault_scenario_traced(run_seed: u64, thorough: bool, print: bool) -> FaultScenarioResult {
+pub fn seeded_fault_scenario_traced(run_seed: u64, thorough: bool, chunk: usize, print: bool) -> FaultScenarioResult {
     events_reset(print);
-    event(&format!("run_seed {run_seed} fault scenario thorough={thorough}"));
+    event(&format!("run_seed {run_seed} fault scenario thorough={thorough} chunk={chunk}"));
     let mut rng = Prng::new(run_seed);
     let mut knobs = gen::gen_knobs(&mut rng, "C11");
     knobs.node_cap = knobs.node_cap.min(150);
@@ -1691,7 +1695,9 @@ pub fn seeded_fault_scenario_traced(run_seed: u64, thorough: bool, print: bool) 
 
     // baseline: suffix without faults (plan empty), oracles on
     let (v0, n_calls, base_pool) = run_suffix(&prefix_pool, &prefix_models, &sc, &mut stats);
-    result.executions += 1;
+    if chunk == 0 {
+        result.executions += 1;
+    }
     result.baseline_calls = n_calls;
     if !v0.is_empty() {
         // fault-free violation: belongs to C03..C06; C11 does not judge it
@@ -1702,7 +1708,15 @@ pub fn seeded_fault_scenario_traced(run_seed: u64, thorough: bool, print: bool) 
     }
     let base_nodes: Vec<usize> = base_pool.iter().map(|t| t.len()).collect();
     let menu = lpseam::FaultKind::menu();
+    // deterministic cost bound per scenario (LP calls, not wall-clock): enumeration stops when it is used up
+    let lp_budget: u64 = (if thorough { 600_000 } else { 60_000 }) / CHUNKS as u64;
     let try_plan = |plan: FaultPlan, stats: &mut PwlStats, result: &mut FaultScenarioResult| {
+        if stats.lp_calls > lp_budget {
+            if result.executions > 0 && stats.probes.get("scenario stopped early: LP-call budget used up").is_none() {
+                bump(&mut stats.probes, "scenario stopped early: LP-call budget used up", 1);
+            }
+            return;
+        }
         let mut s = sc.clone();
         s.fault_plan = plan;
         crate::common::heartbeat();
@@ -1740,8 +1754,10 @@ pub fn seeded_fault_scenario_traced(run_seed: u64, thorough: bool, print: bool) 
             }
         }
     };
-    // enumeration: every position x every kind (quick tier: at most 48 positions per scenario - the
-    // first 16, the last 16 and 16 seeded ones in between; counted as a partial enumeration)
+    // The plan list is generated completely (and identically in every chunk); this chunk executes its share.
+    // enumeration: every position x every kind (at most 48 / 160 positions per scenario in the quick /
+    // thorough tier - the first 16, the last 16 and seeded ones in between; counted as a partial enumeration)
+    let mut plans: Vec<(FaultPlan, u8)> = Vec::new();
     let cap = if thorough { 160 } else { 48 };
     let positions: Vec<usize> = if n_calls <= cap {
         (0..n_calls).collect()
@@ -1750,15 +1766,16 @@ pub fn seeded_fault_scenario_traced(run_seed: u64, thorough: bool, print: bool) 
         while set.len() < cap {
             set.insert(16 + rng.below(n_calls - 32));
         }
-        bump(&mut stats.probes, "scenario with more LP calls than the tier's cap (48 quick / 160 thorough): single-fault enumeration restricted to a seeded subset of positions", 1);
+        if chunk == 0 {
+            bump(&mut stats.probes, "scenario with more LP calls than the tier's cap (48 quick / 160 thorough): single-fault enumeration restricted to a seeded subset of positions", 1);
+        }
         set.into_iter().collect()
     };
     for pos in positions {
         for kind in &menu {
             let mut plan = FaultPlan::default();
             plan.faults.insert(pos, kind.clone());
-            try_plan(plan, &mut stats, &mut result);
-            result.enumerated_single += 1;
+            plans.push((plan, 0));
         }
     }
     // pairs of positions: thorough for n <= 12 with kinds from the whole menu; quick for n <= 8 with the
@@ -1776,17 +1793,25 @@ pub fn seeded_fault_scenario_traced(run_seed: u64, thorough: bool, print: bool) 
                     plan.faults.insert(p, rng.pick(&destructive).clone());
                     plan.faults.insert(q, rng.pick(&destructive).clone());
                 }
-                try_plan(plan, &mut stats, &mut result);
-                result.enumerated_pairs += 1;
+                plans.push((plan, 1));
             }
         }
     }
     // seeded multi-fault plans
     let n_sampled = if thorough { 12 } else { 4 };
     for _ in 0..n_sampled {
-        let plan = gen::gen_fault_plan(&mut rng, n_calls);
+        plans.push((gen::gen_fault_plan(&mut rng, n_calls), 2));
+    }
+    for (i, (plan, kind)) in plans.into_iter().enumerate() {
+        if i % CHUNKS != chunk {
+            continue;
+        }
         try_plan(plan, &mut stats, &mut result);
-        result.sampled_plans += 1;
+        match kind {
+            0 => result.enumerated_single += 1,
+            1 => result.enumerated_pairs += 1,
+            _ => result.sampled_plans += 1,
+        }
     }
     stats.runs = 1;
     let (d, n) = events_digest();
